@@ -1114,6 +1114,9 @@ func c07Scenarios(tier string) []*Scenario {
 		out = append(out, c07History(c07Op{"call", "1", "slow"}, 3, true, Bounds{0, 0, 0}))
 		for _, k := range c07EagerKinds {
 			out = append(out, c07Eager(k, Bounds{2, -1, 0}))
+			if k == "fast" || k == "batch" {
+				out = append(out, c07Eager(k, Bounds{1, 1, 1})) // with one environment deviation
+			}
 		}
 		out = append(out, c07Restart("stop", Bounds{1, -1, 0}), c07Restart("eof", Bounds{1, -1, 0}))
 		out = append(out, c07NearID(`"7"`, `7`, Bounds{1, 1, 0}), c07NearID(`7`, `"7"`, Bounds{1, 1, 0}))
